@@ -1156,6 +1156,10 @@ func (fx *FnCtx) checkFrameStore(st *State, l *Loc) {
 	prefix := leafKey(l, "")
 	var alts []string
 	alts = append(alts, tCmp(">=", l.Ref, st.top0)) // freshly allocated in this call
+	if l.Mem {
+		// an array stored inside a freshly allocated object is addressed by -(ref*4096+k)
+		alts = append(alts, tCmp("<=", l.Ref, "(- (* "+st.top0+" 4096))"))
+	}
 	for _, t := range fx.frameTgts {
 		switch t.kind {
 		case "all":
